@@ -41,6 +41,35 @@ T = {
     change="Parser::peek walks the token vector by hand and jumps over at most one skipped token per lookahead step (src/skeleton/generated.rs)",
     needs="two adjacent skipped tokens inside the lookahead window of a predicate",
     caught="Kani leaf harness peek_matches_spec on the real emitted text of Parser::peek: r == spec_peek(&p, k) fails (bounded: <=4 tokens), CBMC's counterexample trace is in the replay file"),
+ # ---- round 3 (on the tree with all four fix: commits; machinery with E13 and the proved frame) ----
+ "e01": dict(prop="C01",
+    change="Parser::mark no longer closes a pending error node (skeleton and shipped front-end copy)",
+    needs="garbage skipped right before a rule that starts with mark() (Pratt lhs, marker) whose first token is then rejected by a predicate: the mark lands inside a growing error node, open_before later inserts the wrapper in its middle; leaves visited twice",
+    caught="postcondition of Parser::mark (`error_node is None`, `mk(r)`: the mark is a sibling boundary) fails in every unit that verifies the skeleton and in the shipped front end"),
+ "e02": dict(prop="C02",
+    change="a nameless node creation in a rule that has a rename closes the node with the run-time `node_kind` but still fires create_node_<rule> (src/backend/rust.rs, Regex::NodeCreation)",
+    needs="a rule with both an @rename and a nameless creation, the rename reached first: the created callback announces a node whose stored kind is the renamed one",
+    caught="precondition cb_node_ready(.., Rule::Item) [C02] of create_node_item fails in rule_item of n10_rename_nameless_creation (grammar shape added to the corpus after reading the agent's report: no corpus grammar combined a rename with a nameless creation)",
+    extra={"needed_strengthening": "corpus grammar n10_rename_nameless_creation"}),
+ "e03": dict(prop="C03",
+    change="RecoverySetGenerator::run initialises the dominator sets without the start node (src/frontend/sema.rs): loops inside recursive rules lose EOF from their recovery set",
+    needs="a loop inside a (directly or indirectly) recursive rule, not at the tail of its rule, start rule ending in a terminal; input ending inside the loop: advance_with_error at end of input does not advance, the loop spins",
+    caught="`decreases` of the emitted loops fails in e04_uncond_creation, m11_deep, m12_loop_in_recursive, x08_call, x13_marker (layer S defect seen through its layer G consequence; m12 was added after reading the report, the other four units were already in the quick corpus)"),
+ "e06": dict(prop="C06",
+    change="new runtime function Parser::skip_with_error (a copy of advance_with_error that tests only error_node, not error_since_advance) emitted in the skip arm of * and + loops",
+    needs="an element reports an error at token t without consuming it and a */+ loop follows for which t is neither in first, follow nor recovery: two diagnostics on t",
+    caught="the emitted code calls a parser function that has no contract: every unit with a loop is UNDECIDED (needs contract: a failed caller would say nothing about the property) and the bounded stand-in, which runs for such units, finds inputs with two diagnostics at the same position in ten units (C06, with failing input, bounded)",
+    extra={"needed_strengthening": "policy for uncontracted runtime functions (undecided + bounded stand-in) added after reading the agent's report; before it the failing callers would have been reported as violations of whatever clause failed first"}),
+ "e07": dict(prop="C07",
+    change="binding powers are only emitted when a left-recursive rule has an infix branch (src/backend/rust.rs output_left_recursive_rule: requires_bp no longer counts prefix branches)",
+    needs="a left-recursive rule with a prefix branch declared before a postfix branch and no infix branch: the prefix operand swallows the postfix operators (`-1!` parses as -(1!))",
+    caught="x14_prefix_postfix, rule_e::rec: the [C07] obligation `the grammar text has a prefix operator declared before a postfix operator: that needs a minimum binding power, none is emitted` (whether binding powers are needed is decided from the grammar text, not from the emitted code)",
+    extra={"needed_strengthening": "before this seed a rule without emitted binding powers was reported as `not covered` - the change would have been MISSED; the missing-binding-power obligation and the grammar x14_prefix_postfix were added after reading the agent's report"}),
+ "e08": dict(prop="C08",
+    change="save/restore of the rule-local `node_kind` around an abandoned alternative is dropped when the rule also has conditional elision (src/backend/rust.rs, Regex::OrderedChoice: the four ifs merged into one match whose first arm shadows the combined case)",
+    needs="ordered choice + a rename before a failure point in a non-last alternative + conditional elision in the same rule: the node is closed and announced under the name of the alternative that was not taken",
+    caught="o12_choice_cond_elide_rename, rule_postfix: assertion [C08] `locals assigned by the abandoned alternative are restored` (node_kind == its value at the alternative's entry) fails after set_state",
+    extra={"needed_strengthening": "before this seed the contracts said nothing about the rule's local variables - the change would have been MISSED; the locals-restored assertion and the grammar o12_choice_cond_elide_rename were added after reading the agent's report"}),
 }
 
 
